@@ -15,7 +15,7 @@ REAL = ['onl.netdev.wire.Wire', 'onl.netdev.wire.Cable', 'onl.sim kernel']
 STUBS = ['injector, taps, endpoints, scripted delay distribution, ScriptedRandom replacing onl.netdev.wire.random']
 ASSUMPTIONS = ['the n-th packet taken from the wire consumes the next loss draw (if a loss rate is set) and, if kept, the '
                'next delay draw; a packet is lost iff draw < p', 'FLOAT workloads: relative tolerance 1e-9 on delivery times']
-PROBES = ['reconfigured_in_use', 'debug_output', 'big_clock', 'late_out', 'same_object_reenters', 'draw_near_loss_rate', 'two_sources_same_ids', 'later_packet_shorter_delay', 'zero_delay', 'lost_between_delivered', 'held_back_by_predecessor', 'cable',
+PROBES = ['compared_with_bare_twin', 'reconfigured_in_use', 'debug_output', 'big_clock', 'late_out', 'same_object_reenters', 'draw_near_loss_rate', 'two_sources_same_ids', 'later_packet_shorter_delay', 'zero_delay', 'lost_between_delivered', 'held_back_by_predecessor', 'cable',
           'loss_rate_one', 'loss_rate_zero']
 
 
@@ -94,8 +94,25 @@ class ViaOut:
 
 
 def run(case):
+    res, w = _run(case, False)
+    if case.get('twin') and not case.get('cable'):
+        # the same wire between library elements only (a library sink behind it, no taps)
+        from ..net import sink_view, compare_sink_views
+        res['stats']['compared_with_bare_twin'] = 1
+        w2 = _run(case, True)
+        if w2.raised:
+            res['viol'].append(('C10.T', 'the same scenario without taps raised %r' % (w2.raised[0],)))
+        else:
+            d = compare_sink_views(sink_view(w), sink_view(w2))
+            if d is not None:
+                res['viol'].append(('C10.T', 'the wire works differently when nobody watches it (no taps, a library sink '
+                                    'behind it): ' + d))
+    return res
+
+
+def _run(case, bare):
     t0 = case.get('t0', 0)
-    w = NetWorld(t0)
+    w = NetWorld(t0, bare=bare)
     env = w.env
     saved = wire_mod.random
     viol = []
@@ -173,6 +190,8 @@ def run(case):
         w.run(max_steps=20000 * (40 if case.get('long_life') else 1))
     finally:
         wire_mod.random = saved
+    if bare:
+        return w
     stats = {}
     nontrivial = False
     for nm in wires:
@@ -199,7 +218,7 @@ def run(case):
            'simtime': float(env.now), 'steps': w.steps}
     if case.get('_excerpt'):
         res['excerpt'] = [repr(r) for r in w.log[-80:]]
-    return res
+    return res, w
 
 
 def check_wire(w, case, nm):
@@ -310,6 +329,8 @@ _gen_short = gen
 
 def gen(rng, tier):
     case = _gen_short(rng, tier)
+    if rng.random() < 0.2:
+        case['twin'] = True
     if rng.random() < 1 / 80 and not case.get('cable') and not case.get('reconf') and not case.get('workload_b') and not case.get('late_out') and len(case.get('workload', [])) >= 3:
         # a long life: the same pattern of bursts, gaps and coincidences over and over, thousands of packets in all
         from ..net import stretch_workload
